@@ -13,6 +13,6 @@ open Unifex.Core Unifex.Proto.EventV2
     that found the event latched or was drained by the first set() still completes exactly once). -/
 theorem v2_set_reset_safe_inst :
     ∀ s, Reach (sys cfgSetReset) s → (safe cfgSetReset s && affine s) = true :=
-  safe_of_checkC _ { coded with M := 761, W := 224 } 400 _ (by decide +kernel)
+  safe_of_checkC _ { coded with M := 1181, W := 240 } 400 _ (by decide +kernel)
 
 end Unifex.Props.C16
